@@ -3286,6 +3286,17 @@ impl Bodies {
     }
 }
 
+// verification hook (only compiled with `--cfg capy_verif`): every lowered
+// expression with its source range, in arena (= lowering) order
+#[cfg(capy_verif)]
+impl Bodies {
+    pub fn verif_exprs(&self) -> impl Iterator<Item = (Idx<Expr>, &Expr, Option<TextRange>)> + '_ {
+        self.exprs
+            .iter()
+            .map(|(id, e)| (id, e, self.expr_ranges.get(id).copied()))
+    }
+}
+
 impl std::ops::Index<Idx<LocalDef>> for Bodies {
     type Output = LocalDef;
 
